@@ -34,7 +34,7 @@ RULE = ('enum: every sequence of length <= 8 (quick: <= 6) over alphabets of siz
         'shuffles up to 16 sequences, each with its own planned draws); n=2 (cumulative in-place '
         'permutation, "all identical" guard) for every sequence of length <= 5 (quick: <= 4) and every '
         'pair of families; every (start, end) in [-L-2, L+2]^2 for sampled sequences. obs: compiled '
-        'function on every sequence of the same scope (batched), end in {L, -1}, seeds 0..2, plus random '
+        'function on every sequence of the same scope (batched), end = L (seeds 0..1) and the default end = -1, plus random '
         'sequences up to length 300, alphabets 2-8, batch <= 4, n in {1,2,5,20}, random regions incl. '
         'negative bounds. shuf: every sequence of length <= 6 (quick: <= 5) batched, every region in '
         '[-L-2, L+2]^2, n in {1,2}, seeds; random long; plus a malformed stream. Non-trivial = the call '
@@ -94,22 +94,38 @@ def from_seq(Y):
     return ['r', Yi.t().tolist()]
 
 
+def codes_lit(A, codes):
+    """a one-hot row given by its character codes"""
+    if A <= 10:
+        return '(dn %s 1%s)' % (C.nat(A), ''.join(str(int(k)) for k in codes))
+    return '(en %s %s)' % (C.nat(A), natl(codes))
+
+
 def seq_lit(A, enc):
     if enc[0] == 'c':
-        return '(en %s %s)' % (C.nat(A), natl(enc[1]))
+        return codes_lit(A, enc[1])
     return C.lst([C.zlist(c) for c in enc[1]])
 
 
 def natl(xs):
-    return '(%s)%%nat' % C.lst([str(int(x)) for x in xs])
+    xs = [int(x) for x in xs]
+    if xs and max(xs) <= 9:
+        return '(dg 1%s)' % ''.join(str(x) for x in xs)
+    return '(%s)%%nat' % C.lst([str(x) for x in xs])
+
+
+def digits(rows):
+    return '1' + ''.join(str(int(k)) for r in rows for k in r)
 
 
 def tensor_lit(A, seqs):
     L = len(seqs[0]) if seqs else 0
+    if seqs and L >= 1 and A <= 9 and all(k >= 0 for s in seqs for k in s):
+        return '(T %s %s (dnb %s %s %s))' % (C.nat(A), C.nat(L), C.nat(A), C.nat(L), digits(seqs))
     rows = []
     for s in seqs:
         if all(k >= 0 for k in s):
-            rows.append('(en %s %s)' % (C.nat(A), natl(s)))
+            rows.append(codes_lit(A, s))
         else:
             rows.append(C.lst([C.zlist(column(A, k)) for k in s]))
     return '(T %s %s %s)' % (C.nat(A), C.nat(L), C.lst(rows))
@@ -122,6 +138,7 @@ _PERMS = {}
 
 
 def perms_of(m):
+    assert m <= 7, m           # enumeration is for the small scope only
     if m not in _PERMS:
         _PERMS[m] = [list(p) for p in itertools.permutations(range(max(m, 0)))]
     return _PERMS[m]
@@ -151,6 +168,11 @@ def family(A, region, idx):
         fam.append(ps[idx % len(ps)])
         idx //= len(ps)
     return fam
+
+
+def random_family(A, region, rng):
+    """one random admissible family (no enumeration: the lists may be long)"""
+    return [rng.sample(range(max(n_c - 1, 0)), max(n_c - 1, 0)) for n_c in succ_counts(A, region)]
 
 
 class Planned:
@@ -275,6 +297,12 @@ def outcome_lit(inp, out, transpose):
     if transpose:                           # shuffle: model is indexed [sample][example]
         n = len(Y[0]) if Y else 0
         Y = [[Y[b][i] for b in range(len(Y))] for i in range(n)]
+    k = len(Y[0]) if Y else 0
+    L = len(Y[0][0][1]) if k else 0
+    if (Y and k >= 1 and L >= 1 and A <= 9 and all(len(row) == k for row in Y)
+            and all(e[0] == 'c' and len(e[1]) == L for row in Y for e in row)):
+        return '(Ok (obn %s %s %s %s))' % (C.nat(A), C.nat(L), C.nat(k),
+                                           digits([e[1] for row in Y for e in row]))
     return '(Ok %s)' % C.lst([C.lst([seq_lit(A, e) for e in row]) for row in Y])
 
 
@@ -291,7 +319,14 @@ def coq_case(inp, out):
         call = '(CDinucObs %s %s %s %s)' % (X, C.z(inp['start']), C.z(inp['end']), C.nat(max(inp['n'], 0)))
         o = outcome_lit(inp, out, False)
     else:
-        sig = C.lst([C.lst([C.lst([natl(p) for p in sh]) for sh in ex]) for ex in inp['plan']])
+        plan = inp['plan']
+        n = len(plan[0]) if plan else 0
+        flat = [p for ex in plan for sh in ex for p in sh]
+        if (n >= 1 and all(len(ex) == n and all(len(sh) == A for sh in ex) for ex in plan)
+                and all(x <= 8 for p in flat for x in p)):
+            sig = '(sgn %s %s 1%s)' % (C.nat(A), C.nat(n), ''.join(''.join(str(x) for x in p) + '9' for p in flat))
+        else:
+            sig = C.lst([C.lst([C.lst([natl(p) for p in sh]) for sh in ex]) for ex in plan])
         call = '(CDinuc %s %s %s %s)' % (X, C.z(inp['start']), C.z(inp['end']), sig)
         o = outcome_lit(inp, out, False)
     return '(%s, %s, %s, %s)' % (call, o, C.boolean(out['unchanged']), C.boolean(out['same']))
@@ -394,7 +429,7 @@ def generate(tier, rng):
         s = rand_seq(rng, A, L, rng.random() < 0.5)
         n = rng.choice([2, 3])
         yield {'kind': 'enum', 'A': A, 'seqs': [s], 'start': 0, 'end': L,
-               'plan': [[family(A, s, rng.randrange(n_families(A, s))) for _i in range(n)]]}
+               'plan': [[random_family(A, s, rng) for _i in range(n)]]}
     # every region (Python slice semantics, negative and out-of-range bounds) on sampled sequences
     for A in (2, 3, 4):
         for L in ((5,) if quick else (5, 6, 7)):
@@ -406,7 +441,7 @@ def generate(tier, rng):
                         plan = []
                         for x in (s, other):
                             r = x[a:b]
-                            plan.append([family(A, r, rng.randrange(n_families(A, r)))])
+                            plan.append([random_family(A, r, rng)])
                         yield {'kind': 'enum', 'A': A, 'seqs': [s, other], 'start': start, 'end': end,
                                'plan': plan}
     # ---------------- obs: the compiled function
@@ -415,10 +450,9 @@ def generate(tier, rng):
             seqs = all_seqs(A, L)
             rng.shuffle(seqs)
             for i in range(0, len(seqs), 64):
-                for end in (L, -1):
-                    for seed in range(2 if quick else 3):
-                        yield {'kind': 'obs', 'A': A, 'seqs': seqs[i:i + 64], 'start': 0, 'end': end,
-                               'n': 1, 'seed': seed}
+                for end, seed in ((L, 0), (-1, 0)) if quick else ((L, 0), (L, 1), (-1, 0)):
+                    yield {'kind': 'obs', 'A': A, 'seqs': seqs[i:i + 64], 'start': 0, 'end': end,
+                           'n': 1, 'seed': seed}
     for _ in range(150 if quick else 1500):
         A = rng.choice([2, 3, 4, 4, 4, 5, 8])
         L = rng.choice([3, 4, 6, 9, 14, 20, 33, 50, 80, 120, 200, 300])
@@ -433,16 +467,16 @@ def generate(tier, rng):
         yield {'kind': 'obs', 'A': A, 'seqs': seqs, 'start': start, 'end': end, 'n': n,
                'seed': rng.choice([0, 1, 2, 3, rng.randint(0, 10 ** 6)]),
                'dtype': 'f32' if rng.random() < 0.2 else 'i8'}
-    # ---------------- shuf
+    # ---------------- shuf (the permutation does not depend on the data: one batch of sequences
+    # per alphabet and length, every region)
     for A in (2, 3, 4):
-        for L in range(1, (5 if quick else 6) + 1):
+        for L in range(1, (5 if quick else 7) + 1):
             seqs = all_seqs(A, L)
-            rng.shuffle(seqs)
+            seqs = rng.sample(seqs, min(len(seqs), 16 if quick else 32))
             regions = [(st, en) for st in range(-2, L + 2) for en in range(-L - 2, L + 3)]
-            for i in range(0, len(seqs), 64):
-                for (st, en) in (rng.sample(regions, min(len(regions), 12)) if quick else regions):
-                    yield {'kind': 'shuf', 'A': A, 'seqs': seqs[i:i + 64], 'start': st, 'end': en,
-                           'n': rng.choice([1, 2]), 'seed': rng.choice([0, 1, 2])}
+            for (st, en) in regions:
+                yield {'kind': 'shuf', 'A': A, 'seqs': seqs, 'start': st, 'end': en,
+                       'n': rng.choice([1, 2]), 'seed': rng.choice([0, 1, 2])}
     for _ in range(150 if quick else 1500):
         A = rng.choice([2, 3, 4, 4, 5, 8])
         L = rng.choice([3, 5, 8, 13, 21, 40, 80, 150, 300])
